@@ -605,12 +605,17 @@ def gen_ascii_history(rng, length, full_shape=True, stock=False):
         elif r < 0.66:
             # typing with the Lock modifier set (Caps Lock on): letters, digits, punctuation, Control+letter
             for _ in range(rng.choice([1, 2, 3])):
-                ops.append(key(ord(rng.choice("abzAZ19,. ;")), LOCK | rng.choice([0, 0, 0, SHIFT, CTRL, RELEASE])))
+                ch, mask = rng.choice("abzAZ19,. ;"), LOCK | rng.choice([0, 0, 0, SHIFT, CTRL, RELEASE])
+                if not full_shape and ch == " " and mask & SHIFT:
+                    mask &= ~SHIFT
+                ops.append(key(ord(ch), mask))
         elif r < 0.74:
             # printable keys of every kind (ascii mode pushes them all, 0x7f included), some released
             for _ in range(rng.choice([1, 2, 3])):
-                ops.append(key(rng.choice([0x20, 0x21, 0x2c, 0x30, 0x39, 0x41, 0x5a, 0x61, 0x7a, 0x7e, 0x7f, 0x80, 0x1f]),
-                               rng.choice([0, 0, 0, SHIFT, RELEASE])))
+                code, mask = rng.choice([0x20, 0x21, 0x2c, 0x30, 0x39, 0x41, 0x5a, 0x61, 0x7a, 0x7e, 0x7f, 0x80, 0x1f]), rng.choice([0, 0, 0, SHIFT, RELEASE])
+                if not full_shape and code == 0x20 and mask == SHIFT:
+                    mask = 0      # Shift+space toggles full_shape in the stock key binder: outside C03's domain
+                ops.append(key(code, mask))
         elif r < 0.80:
             ops += [rng.choice(["sel %d" % rng.randrange(0, 12), "selp %d" % rng.randrange(0, 5), "hl %d" % rng.randrange(0, 9)])]
         elif r < 0.86:
